@@ -16,7 +16,7 @@ RULE = (
     "with an application/octet-stream PUT) and a program of {query with one of 3-5 generated filters, write, overwrite, delete, restart} in which every filter is repeated past the indexing threshold and "
     "filters are interleaved so that the index is created, reset and extended. The same program runs against four servers with index_threshold 0, 1, default(5) and 10^9 (index never used); through "
     "Store.iter_with_filter the same is done on tree-git, bare-git and vdir stores. Oracle (differential/metamorphic, independent of RFC correctness): at every query all configurations return the same "
-    "set of names and none answers with an error while another answers with a result; the never-indexing configuration is the 'fresh, never queried' reference. Non-trivial program: some filter was "
+    "set of names, serve the same data for each name (calendar-data / file content, compared by hash), and none answers with an error while another answers with a result; the never-indexing configuration is the 'fresh, never queried' reference. Non-trivial program: some filter was "
     "evaluated through the index path and a write happened between two index-path evaluations of the same filter; distinct by program hash."
 )
 
@@ -122,10 +122,15 @@ class HttpConfig:
         self.world.restart()
 
     def query(self, flt, tz):
-        r = c11.query(self.world, "wsgi", self.coll, flt, tz, data=False)
+        import hashlib
+
+        self.last_data = None
+        r = c11.query(self.world, "wsgi", self.coll, flt, tz, data=True)
         got, ms = c11.result_names(r)
         if got is None:
             return ("error", (r.exc or str(r.status)).split("@")[-1].strip()[:80])
+        # what is served for each result is part of the result: compared between the configurations
+        self.last_data = {n: (hashlib.sha1(d.encode("utf-8", "surrogatepass")).hexdigest()[:12] if d is not None else None) for n, d in got.items()}
         return ("ok", tuple(sorted(got)))
 
     def index_used(self):
@@ -192,8 +197,12 @@ class StoreConfig:
         el = ET.fromstring(f'<C:filter xmlns:C="{dav.CAL}">' + filterref.comp_filter_xml(flt) + "</C:filter>")
         try:
             f = caldav.parse_filter(el, CalendarFilter(ZoneInfo(tz)))
-            names = sorted(n for n, fi, etag in self.store.iter_with_filter(f))
-            return ("ok", tuple(names))
+            import hashlib
+
+            self.last_data = None
+            hits = [(n, hashlib.sha1(b"".join(fi.content)).hexdigest()[:12]) for n, fi, etag in self.store.iter_with_filter(f)]
+            self.last_data = dict(hits)
+            return ("ok", tuple(sorted(n for n, _ in hits)))
         except Exception as e:
             import os
             import traceback
@@ -279,6 +288,15 @@ def run_program(prog):
                         return out
                     if results[0][0] == "error":
                         out["stats"]["queries-all-error"] += 1
+                    else:
+                        datas = [getattr(c, "last_data", None) for c in configs]
+                        out["stats"]["queries-data-compared"] += 1
+                        for i, d in enumerate(datas):
+                            if d != datas[ref]:
+                                diff = sorted(n for n in set(d or {}) | set(datas[ref] or {}) if (d or {}).get(n) != (datas[ref] or {}).get(n))
+                                out["ok"] = False
+                                out["violation"] = {"oracle": "index", "sig": f"different-data:{c11.filter_shape(flt)}", "detail": f"step {si} repetition {rep}: filter {json.dumps(flt)}: same result names but the data served for {diff} differs between the never-indexing configuration and {labels[i]}"}
+                                return out
         out["nontrivial"] = nontrivial
         out["labels"] = ["engine:" + prog["engine"]] + (["index-used"] if out["stats"].get("queries-with-index-present") else [])
         return out
